@@ -10,7 +10,7 @@ from ..lie import *
 
 K_EPS, K_SQRT = 256, 64
 RULE = ('x = blocks (rotation, translation, log-scale) drawn independently from {0, 1e-30..1e-3 log-uniform, ladder around eps and sqrt(eps), O(1), '
-        'rotation up to 7 pi, |sigma| <= 8}; a case is (type, dtype, x); non-trivial = x != 0; distinct by value; directed block first covers every '
+        'rotation up to 7 pi, |sigma| <= 8}; a case is (type, dtype, x) or (type, dtype, mixed batch of 10, twin); non-trivial = x != 0; distinct by value; directed block first covers every '
         'branch combination (theta<=eps / >eps x |sigma|<=eps / >eps); tolerances: %d eps (rotation, scale), %d sqrt(eps) (translation block, relative to its norm)' % (K_EPS, K_SQRT))
 
 
@@ -155,19 +155,33 @@ def mp_raw_reference(alg, x):
     return t + q + ([mp.exp(X[6])] if alg == 'sim3' else [])
 
 
-def confirm(pp, torch, alg, dname, x, shape=()):
-    """is the implementation's Exp(x) outside the property's tolerance w.r.t. the true exponential?
-    Same component tolerances as the enclosure check (99 % of them, so that a proved excess is always
-    confirmed), measured against an independent 60-digit reference."""
+_REF = {}
+
+
+def references(alg, x):
+    """(raw reference, expm of the generator) at 60 digits, cached by value"""
+    k = (alg, tuple(x))
+    if k not in _REF:
+        if len(_REF) > 20000:
+            _REF.clear()
+        _REF[k] = (mp_raw_reference(alg, x), mp_reference(alg, x))
+    return _REF[k]
+
+
+def judge(alg, eps, x, M, raw):
+    """is (raw group tensor, matrix) - what the implementation returned for Exp(x) - outside the property's
+    tolerance w.r.t. the true exponential?  Same component tolerances as the enclosure check (99 % of them, so
+    that a proved excess is always confirmed), measured against an independent 60-digit reference."""
     import mpmath as mp
-    dtype = torch.float64 if dname == 'float64' else torch.float32
-    eps = float(torch.finfo(dtype).eps)
-    M, raw = impl_matrix(pp, torch, alg, x, dtype, shape)
     if any(not math.isfinite(v) for v in raw):
         return 'non-finite output %s' % raw
-    ref = mp_raw_reference(alg, x)
+    if any(not math.isfinite(v) for row in M for v in row):
+        return 'non-finite matrix() %s' % M
+    ref, E = references(alg, x)
     worst = []
     names = {'so3': ['q'] * 4, 'se3': ['t'] * 3 + ['q'] * 4, 'rxso3': ['q'] * 4 + ['s'], 'sim3': ['t'] * 3 + ['q'] * 4 + ['s']}[alg]
+    if len(raw) != len(names) or len(M) not in ((3, 4) if alg in ('so3', 'rxso3') else (4,)):
+        return 'Exp(x) has %d components and a %dx%d matrix' % (len(raw), len(M), len(M))
     for j, tol in tolerances(alg, raw, eps):
         err = abs(mp.mpf(raw[j]) - ref[j])
         if err > 0.99 * tol:
@@ -179,7 +193,6 @@ def confirm(pp, torch, alg, dname, x, shape=()):
     if abs(qn - 1) > K_EPS * eps:
         worst.append('quaternion norm off by %.3g' % abs(qn - 1))
     # the matrix the library builds from it vs expm of the generator (blockwise, relative)
-    E = mp_reference(alg, x)
     n = len(M)
     blk = max(abs(E[i, j]) for i in range(3) for j in range(3))
     err_rs = max(abs(mp.mpf(M[i][j]) - E[i, j]) for i in range(3) for j in range(3))
@@ -190,7 +203,243 @@ def confirm(pp, torch, alg, dname, x, shape=()):
         et = max(abs(mp.mpf(M[i][3]) - E[i, 3]) for i in range(3))
         if tb > 0 and et > 2 * K_SQRT * math.sqrt(eps) * tb:
             worst.append('translation block of matrix() off by %.3g relative (sqrt(eps) = %.3g)' % (float(et / tb), math.sqrt(eps)))
+        if tb == 0 and et > 0:
+            worst.append('translation block of matrix() is %s for a zero translation part' % [M[i][3] for i in range(3)])
+        last = [0.0, 0.0, 0.0, 1.0]
+        if [float(v) for v in M[3]] != last:
+            worst.append('last row of matrix() is %s' % M[3])
     return '; '.join(worst) if worst else None
+
+
+def confirm(pp, torch, alg, dname, x, shape=()):
+    """Exp(x) on the implementation (as the last item of a batch of lshape `shape`), judged against the reference"""
+    dtype = torch.float64 if dname == 'float64' else torch.float32
+    eps = float(torch.finfo(dtype).eps)
+    M, raw = impl_matrix(pp, torch, alg, x, dtype, shape)
+    return judge(alg, eps, x, M, raw)
+
+
+# ---------------------------------------------------------------- twins
+# The property quantifies over EVERY Lie-algebra LieTensor of the four types, however the object came to be:
+# restored from a checkpoint / sent through a DataLoader worker (copy.deepcopy, pickle, torch.save + load: the
+# .ltype attribute is then a fresh LieType instance, not the module-level singleton), wrapped as a Parameter,
+# sliced, cloned, converted, re-laid-out, refilled in place after an earlier call.  Each maker takes the
+# LieTensor x (lshape (n,)) and returns the twin; the twin is judged on ITS OWN data against the reference.
+
+def _roundtrip_pickle(pp, torch, x):
+    import pickle
+    return pickle.loads(pickle.dumps(x))
+
+
+def _roundtrip_save(pp, torch, x):
+    import io
+    b = io.BytesIO()
+    torch.save(x, b)
+    b.seek(0)
+    return torch.load(b, weights_only=False)
+
+
+def _deepcopy(pp, torch, x):
+    import copy
+    return copy.deepcopy(x)
+
+
+def _module_deepcopy(pp, torch, x):
+    import copy
+    m = torch.nn.Module()
+    m.pose = pp.Parameter(x)
+    return copy.deepcopy(m).pose
+
+
+def _state_dict(pp, torch, x):
+    m, m2 = torch.nn.Module(), torch.nn.Module()
+    m.pose = pp.Parameter(x)
+    m2.pose = pp.Parameter(pp.LieTensor(torch.zeros_like(x.tensor()), ltype=x.ltype))
+    m2.pose.Exp()
+    m2.load_state_dict(_roundtrip_save(pp, torch, m.state_dict()))
+    return m2.pose
+
+
+def _fresh_ltype(pp, torch, x):
+    import copy
+    return pp.LieTensor(x.tensor().clone(), ltype=copy.deepcopy(x.ltype))
+
+
+def _refilled(pp, torch, x):
+    """an object that already served an Exp call with other data, then refilled in place"""
+    y = pp.LieTensor(torch.zeros_like(x.tensor()), ltype=x.ltype)
+    y.Exp().matrix()
+    y.tensor().add_(1.0)
+    y.Exp()
+    y.tensor().copy_(x.tensor())
+    return y
+
+
+def _transposed(pp, torch, x):
+    t = x.tensor()
+    return pp.LieTensor(t.t().contiguous().t(), ltype=x.ltype)
+
+
+def _strided(pp, torch, x):
+    t = x.tensor()
+    big = torch.full((t.shape[0] * 2, t.shape[1] + 3), 7.5, dtype=t.dtype)
+    big[::2, 1:1 + t.shape[1]] = t
+    return pp.LieTensor(big[::2, 1:1 + t.shape[1]], ltype=x.ltype)
+
+
+def _other_dtype(pp, torch, x):
+    return x.to(torch.float32 if x.dtype == torch.float64 else torch.float64)
+
+
+TWINS = [
+    ('original', lambda pp, torch, x: x),
+    ('copy.deepcopy', _deepcopy),
+    ('pickle round trip', _roundtrip_pickle),
+    ('torch.save + torch.load', _roundtrip_save),
+    ('copy.copy', lambda pp, torch, x: __import__('copy').copy(x)),
+    ('deepcopy of a deepcopy', lambda pp, torch, x: _deepcopy(pp, torch, _deepcopy(pp, torch, x))),
+    ('slice of a deepcopy', lambda pp, torch, x: _deepcopy(pp, torch, x)[1:]),
+    ('deepcopy of a slice', lambda pp, torch, x: _deepcopy(pp, torch, x[1:])),
+    ('LieTensor(data, ltype=deepcopy(ltype))', _fresh_ltype),
+    ('pp.Parameter', lambda pp, torch, x: pp.Parameter(x)),
+    ('deepcopy of pp.Parameter', lambda pp, torch, x: _deepcopy(pp, torch, pp.Parameter(x))),
+    ('Parameter of a deep-copied nn.Module', _module_deepcopy),
+    ('Parameter filled by load_state_dict', _state_dict),
+    ('slice [1:]', lambda pp, torch, x: x[1:]),
+    ('slice [::2]', lambda pp, torch, x: x[::2]),
+    ('index by tensor', lambda pp, torch, x: x[torch.tensor([x.shape[0] - 1, 0, 1])]),
+    ('single item [k]', lambda pp, torch, x: x[x.shape[0] // 2]),
+    ('clone', lambda pp, torch, x: x.clone()),
+    ('detach', lambda pp, torch, x: x.detach()),
+    ('clone().requires_grad_()', lambda pp, torch, x: x.clone().requires_grad_()),
+    ('.to(same dtype)', lambda pp, torch, x: x.to(x.dtype)),
+    ('.to(other dtype)', _other_dtype),
+    ('.cpu().contiguous()', lambda pp, torch, x: x.cpu().contiguous()),
+    ('lview(n, 1)', lambda pp, torch, x: x.lview(x.shape[0], 1)),
+    ('torch.cat([x, x])', lambda pp, torch, x: torch.cat([x, x])),
+    ('torch.stack([x, x])', lambda pp, torch, x: torch.stack([x, x])),
+    ('transposed memory layout', _transposed),
+    ('strided view into a larger buffer', _strided),
+    ('refilled in place after earlier calls', _refilled),
+]
+TWIN = dict(TWINS)
+# what is done to the GROUP tensor Exp(x) before its matrix is taken
+OUT_TWINS = [('direct', lambda pp, torch, X: X), ('copy.deepcopy', _deepcopy), ('pickle round trip', _roundtrip_pickle),
+             ('torch.save + torch.load', _roundtrip_save), ('clone', lambda pp, torch, X: X.clone()),
+             ('slice [1:]', lambda pp, torch, X: X[1:])]
+OUT_TWIN = dict(OUT_TWINS)
+
+
+def twin_batch(rng, alg, eps):
+    """mixed batch: rotation from exact 0 over both sides of the switch-over to beyond 3 pi, log-scale 0 / <= eps / O(1)
+    (the listed finding's zone eps < |sigma| <= sqrt(eps)/16 with a tiny rotation is left to the main sample)"""
+    se = math.sqrt(eps)
+    rots = [0.0, 0.5 * eps, 3 * eps, se, 1e-3, rng.uniform(0.2, 1.0), rng.uniform(1.5, 3.0), rng.uniform(3.2, 4.0), 7.0, 11.0]
+    sigs = [0.0, 0.5 * eps, -0.5 * eps, rng.uniform(0.1, 1.5), -rng.uniform(0.1, 1.5), rng.uniform(-3, 3)]
+    xs = []
+    for k, r in enumerate(rots):
+        d = direction(rng)
+        rot = [r * a for a in d]
+        tr = [rng.choice([1.0, 0.01, 30.0]) * a for a in direction(rng)] if k != 4 else [0.0, 0.0, 0.0]
+        sg = [sigs[(k + rng.randrange(len(sigs))) % len(sigs)] if k else 0.0]
+        xs.append({'so3': rot, 'se3': tr + rot, 'rxso3': rot + sg, 'sim3': tr + rot + sg}[alg])
+    return xs
+
+
+def _items(t):
+    return t.reshape(-1, t.shape[-1]).tolist()
+
+
+def twin_check(pp, torch, alg, dname, xs, twin, out_twin='direct', form=0, skip=()):
+    """Exp + matrix() on the twin `twin` of the batch xs.  Returns (kind, text, item) describing the first failure, or None.
+    kind: 'unavailable' (the twin itself cannot be built - not a statement about Exp), 'raises', 'repeat', 'mutation',
+    'accuracy'.  Items whose value is in `skip` are not judged."""
+    dtype = torch.float64 if dname == 'float64' else torch.float32
+    x0 = pp.LieTensor(torch.tensor(xs, dtype=dtype), ltype=getattr(pp, alg + '_type'))
+    keep = x0.tensor().clone()
+    try:
+        y = TWIN[twin](pp, torch, x0)
+        ok = isinstance(y, pp.LieTensor) and type(y.ltype) is type(x0.ltype) and y.shape[-1] == x0.shape[-1]
+    except Exception as e:
+        return ('unavailable', 'building the twin raised %r' % (e,), None)
+    if not ok:
+        return ('unavailable', 'the twin is not a %s LieTensor: %s %s' % (alg, type(y).__name__, type(getattr(y, 'ltype', None)).__name__), None)
+    ydt = y.dtype
+    eps = float(torch.finfo(ydt).eps)
+    before = y.tensor().detach().clone()
+    try:
+        X1 = y.Exp() if form == 0 else pp.Exp(y)
+        X = pp.Exp(y) if form == 0 else y.Exp()          # the judged call is the second one on this object
+        Xo = OUT_TWIN[out_twin](pp, torch, X)
+        M = Xo.matrix()
+        # matrix() taken from the algebra element itself is documented as the matrix of Exp(x): judged as well
+        M2 = (y.matrix() if form == 0 else pp.matrix(y)) if out_twin == 'direct' else None
+        Mt = X.tensor().detach()
+        if out_twin == 'slice [1:]':
+            Mt, before_j = Mt[1:], before[1:]
+        else:
+            before_j = before
+    except Exception as e:
+        import traceback
+        where = traceback.extract_tb(e.__traceback__)[-1]
+        return ('raises', '%s: %s (%s:%d %s)' % (type(e).__name__, e, where.filename.split('/')[-1], where.lineno, where.name), None)
+    if not (isinstance(X, pp.LieTensor) and type(X.ltype).__name__ == {'so3': 'SO3Type', 'se3': 'SE3Type', 'rxso3': 'RxSO3Type', 'sim3': 'Sim3Type'}[alg]):
+        return ('accuracy', 'Exp returned %s with ltype %s' % (type(X).__name__, type(getattr(X, 'ltype', None)).__name__), None)
+    if not torch.equal(X1.tensor(), X.tensor()):
+        return ('repeat', 'two calls of Exp on the same object returned different tensors', None)
+    if not (torch.equal(y.tensor().detach(), before) and torch.equal(x0.tensor(), keep)):
+        return ('mutation', 'Exp / matrix() changed its input', None)
+    if tuple(M.shape[:-2]) != tuple(before_j.shape[:-1]) or tuple(Mt.shape[:-1]) != tuple(before_j.shape[:-1]):
+        return ('accuracy', 'Exp / matrix() of lshape %s returned shapes %s / %s' % (tuple(before_j.shape[:-1]), tuple(Mt.shape), tuple(M.shape)), None)
+    if M2 is not None and tuple(M2.shape) != tuple(M.shape):
+        return ('accuracy', 'x.matrix() has shape %s, x.Exp().matrix() has shape %s' % (tuple(M2.shape), tuple(M.shape)), None)
+    n = M.shape[-1]
+    Ms = M.detach().reshape(-1, n, n).tolist()
+    M2s = M2.detach().reshape(-1, n, n).tolist() if M2 is not None else [None] * len(Ms)
+    for xi, Mi, M2i, ri in zip(_items(before_j), Ms, M2s, _items(Mt)):
+        if tuple(xi) in skip:
+            continue
+        why = judge(alg, eps, xi, Mi, ri)
+        if why:
+            return ('accuracy', why, xi)
+        why = judge(alg, eps, xi, M2i, ri) if M2i is not None else None
+        if why:
+            return ('accuracy', 'x.matrix() taken from the algebra element: ' + why, xi)
+    return None
+
+
+def twins(ctx, pp, torch):
+    rng = ctx.rng
+    for rep in range(ctx.scale(1, 3)):
+        for alg in ALGS:
+            for dname in ('float64', 'float32'):
+                dtype = torch.float64 if dname == 'float64' else torch.float32
+                eps = float(torch.finfo(dtype).eps)
+                xs = torch.tensor(twin_batch(rng, alg, eps), dtype=dtype).tolist()
+                # the plain object first: a failure there is an ordinary accuracy failure of Exp, reported as such
+                skip = set()
+                for xi in xs:
+                    why = confirm(pp, torch, alg, dname, xi, ())
+                    if why:
+                        skip.add(tuple(xi))
+                        ctx.violation(key_of(alg, dname, xi, eps), 'Exp(%s) [%s %s]: %s' % (xi, alg, dname, why), dict(alg=alg, dtype=dname, x=xi))
+                todo = [(t, 'direct') for t, _ in TWINS] + [('original', o) for o, _ in OUT_TWINS[1:]] + [('copy.deepcopy', 'copy.deepcopy'), ('pp.Parameter', 'pickle round trip')]
+                for k, (twin, out) in enumerate(todo):
+                    form = (k + rep) % 2
+                    ctx.case((alg, dname, tuple(map(tuple, xs)), twin, out), branch='twin:%s:%s' % (alg, dname))
+                    r = twin_check(pp, torch, alg, dname, xs, twin, out, form, skip)
+                    if r is None:
+                        continue
+                    kind, text, xi = r
+                    label = 'x = %s' % twin + ('' if out == 'direct' else ', matrix() of Exp(x) after %s' % out)
+                    rep_d = dict(alg=alg, dtype=dname, xs=xs, twin=twin, out_twin=out, form=form, skip=[list(v) for v in skip])
+                    if kind == 'unavailable':
+                        ctx.obligation_broken('twin-construction:%s:%s' % (alg, twin), text)
+                    elif kind == 'accuracy' and xi is not None:
+                        ctx.violation(key_of(alg, dname, xi, eps) + ':twin', 'Exp on the batch xs [%s %s, %s]: item x=%s: %s' % (alg, dname, label, xi, text), rep_d)
+                    else:
+                        ctx.violation('exp-%s:twin:%s' % (kind, twin if out == 'direct' else twin + ', matrix() after ' + out),
+                                      'Exp / matrix() on the batch xs [%s %s, %s]: %s' % (alg, dname, label, text), rep_d)
 
 
 def run(ctx):
@@ -282,6 +531,7 @@ def run(ctx):
         why = confirm(pp, torch, *w)
         if why:
             ctx.violation(key, 'repaired defect is back: Exp(%s) [%s %s]: %s' % (w[2], w[0], w[1], why), dict(alg=w[0], dtype=w[1], x=w[2]))
+    twins(ctx, pp, torch)
     ctx.traces = len(r['ok'])
 
 
@@ -309,4 +559,8 @@ FIXED_WITNESS = {
 def replay(ctx, c):
     pp = import_pypose()
     import torch
+    if 'twin' in c:
+        r = twin_check(pp, torch, c['alg'], c['dtype'], c['xs'], c['twin'], c.get('out_twin', 'direct'), c.get('form', 0),
+                       set(tuple(v) for v in c.get('skip', [])))
+        return None if r is None else '%s: %s%s' % (r[0], r[1], '' if r[2] is None else ' (item x=%s)' % r[2])
     return confirm(pp, torch, c['alg'], c['dtype'], c['x'], c.get('shape', ()))
